@@ -1,4 +1,5 @@
 import QibProofs.Lemmas.CircuitNetMergeData
+import QibProofs.Properties.C05
 /-!
 C05 — All views of a circuit agree. **Tensor-network part**: the network built by `Circuit.as_tensornet` is consistent,
 has two open axes per wire (outputs first, then inputs) and contracts to the circuit matrix.
@@ -23,67 +24,64 @@ set_option linter.unusedSectionVars false
 namespace Qib.C05Net
 open Qib.TNet Qib.GateNet Qib.Embed Qib.CircuitNet
 
-variable {α : Type} [CommRing α] [DecidableEq α]
+variable {α : Type} [CommSemiring α] [DecidableEq α]
 
 /-! ### which gates satisfy the hypotheses -/
 
 /-- every gate class covered by C06 – all but the two-qubit wraps `G.leaf 2` (Rxx, Ryy, Rzz, iSWAP) and the
 preparation gate – satisfies the hypotheses of the theorems below (phase gates under `unⁿ = u`, true for the values the
-code uses: `C06_phase_complex`), as soon as the gate's own data reference gets a number different from the fixed ones -/
+code uses: `C06_phase_complex`). Only a controlled gate uses fixed data references besides its own (`"PauliX"`,
+`"ctrl_cross_neg"`, `"ctrl_cross_pos"`); its own reference (`"ctrl_" + hash`) must have got a number different from
+theirs. (A Pauli-X gate, whose own reference IS `"PauliX"` = 1, is covered: its network has no other reference.) -/
 theorem C05_gateHyp_of_class (p : PGate α) (hleaf : ∀ w m, p.g = G.leaf w m → w = 1)
     (hprep : ∀ n x m tr, p.g ≠ G.prepare n x m tr) (hphase : ∀ n u un, p.g = G.phase n u un → un ^ n = u)
-    (href : p.ref0 ≠ 1 ∧ p.ref0 ≠ 2 ∧ p.ref0 ≠ 3 ∧ p.ref0 ≠ 4) : GateHyp p := by
+    (href : ∀ cs t, p.g = G.controlled cs t → p.ref0 ≠ 1 ∧ p.ref0 ≠ 2 ∧ p.ref0 ≠ 3) : GateHyp p := by
   refine ⟨C06.C06_twoAxesPerWire_partial p.g hleaf, C06.C06_gateNet_denotes_partial p.g hleaf hprep hphase, ?_⟩
   intro gtn hg k hk hk0
-  -- the keys of a gate network's data dictionary are among 0, 1, 2, 3, 4
-  have hkeys : k = 0 ∨ k = 1 ∨ k = 2 ∨ k = 3 ∨ k = 4 := by
-    cases hgc : p.g with
-    | leaf w m =>
-      rw [hgc] at hg; simp only [gateNet, Except.ok.injEq] at hg; subst hg
-      exact Or.inl (by simpa [wrapTN, dkeys] using hk)
-    | dense w m =>
-      rw [hgc] at hg; simp only [gateNet, Except.ok.injEq] at hg; subst hg
-      exact Or.inl (by simpa [wrapTN, dkeys] using hk)
-    | phase n u un =>
-      rw [hgc] at hg; simp only [gateNet] at hg
-      split at hg
+  cases hgc : p.g with
+  | leaf w m =>
+    rw [hgc] at hg; simp only [gateNet, Except.ok.injEq] at hg; subst hg
+    exact absurd (by simpa [wrapTN, dkeys] using hk) hk0
+  | dense w m =>
+    rw [hgc] at hg; simp only [gateNet, Except.ok.injEq] at hg; subst hg
+    exact absurd (by simpa [wrapTN, dkeys] using hk) hk0
+  | phase n u un =>
+    rw [hgc] at hg; simp only [gateNet] at hg
+    split at hg
+    · cases hg
+    · simp only [Except.ok.injEq] at hg; subst hg
+      exact absurd (by simpa [dkeys] using hk) hk0
+  | prepare n x m tr => exact absurd hgc (hprep n x m tr)
+  | block w m => rw [hgc] at hg; simp [gateNet] at hg
+  | controlled cs t =>
+    obtain ⟨r1, r2, r3⟩ := href cs t hgc
+    rw [hgc] at hg; simp only [gateNet] at hg
+    rcases hf : flattenCtrl cs t with ⟨cs', t'⟩
+    rw [hf] at hg
+    cases cs' with
+    | nil => cases hg
+    | cons c0 rest =>
+      simp only [Except.ok.injEq] at hg; subst hg
+      simp only [ctrlTN, dkeys, List.map_append, List.map_cons, List.map_nil, List.map_map, List.mem_append, List.mem_cons,
+        List.not_mem_nil, or_false, List.mem_map, Function.comp] at hk
+      rcases hk with (hk | hk) | ⟨r, hr, rfl⟩
+      · exact absurd hk hk0
+      · split at hk
+        · obtain ⟨a, ha, rfl⟩ := hk
+          simp only [List.mem_cons, List.not_mem_nil, or_false] at ha
+          subst ha; exact r1.symm
+        · simp at hk
+      · rcases (crossRefs_spec rest).2 r hr with h | h
+        · rw [h]; exact r2.symm
+        · rw [h]; exact r3.symm
+  | multiplexed nc ts =>
+    rw [hgc] at hg; simp only [gateNet] at hg
+    split at hg
+    · cases hg
+    · split at hg
       · cases hg
       · simp only [Except.ok.injEq] at hg; subst hg
-        exact Or.inl (by simpa [dkeys] using hk)
-    | prepare n x m tr => exact absurd hgc (hprep n x m tr)
-    | block w m => rw [hgc] at hg; simp [gateNet] at hg
-    | controlled cs t =>
-      rw [hgc] at hg; simp only [gateNet] at hg
-      rcases hf : flattenCtrl cs t with ⟨cs', t'⟩
-      rw [hf] at hg
-      cases cs' with
-      | nil => cases hg
-      | cons c0 rest =>
-        simp only [Except.ok.injEq] at hg; subst hg
-        simp only [ctrlTN, dkeys, List.map_append, List.map_cons, List.map_nil, List.map_map, List.mem_append, List.mem_cons,
-          List.not_mem_nil, or_false, List.mem_map, Function.comp] at hk
-        rcases hk with (hk | hk) | ⟨r, hr, rfl⟩
-        · simp [hk]
-        · split at hk
-          · obtain ⟨a, ha, rfl⟩ := hk
-            simp only [List.mem_cons, List.not_mem_nil, or_false] at ha
-            subst ha; simp
-          · simp at hk
-        · rcases (crossRefs_spec rest).2 r hr with h | h <;> simp [h]
-    | multiplexed nc ts =>
-      rw [hgc] at hg; simp only [gateNet] at hg
-      split at hg
-      · cases hg
-      · split at hg
-        · cases hg
-        · simp only [Except.ok.injEq] at hg; subst hg
-          exact Or.inl (by simpa [dkeys] using hk)
-  rcases hkeys with h | h | h | h | h
-  · exact absurd h hk0
-  · rw [h]; exact href.1.symm
-  · rw [h]; exact href.2.1.symm
-  · rw [h]; exact href.2.2.1.symm
-  · rw [h]; exact href.2.2.2.symm
+        exact absurd (by simpa [dkeys] using hk) hk0
 
 /-! ### the network contracts to the circuit matrix -/
 
@@ -118,6 +116,27 @@ theorem C05_circuitNet_full (fields : List FieldSpec) (instrs : List (CInstr α)
         obtain ⟨hst0, hden0⟩ := init_state (α := α) (wireDims fields) (numWires fields) hwd
         obtain ⟨_, hden⟩ := loop_den instrs _ tn none (some Q) hst0 hden0 hloop hl hg
         exact hden o i ho hi bo bi
+
+/-- **one loop iteration = left multiplication by the embedded gate** (the induction step of `C05_circuitNet_full`, stated
+on its own): from a consistent network with `2n` open axes, after `gate.as_tensornet()`, the merge onto the output axes of
+the gate's wires and the `argsort` re-transposition, the value at outputs `o`, inputs `i` is
+`Σ_t g[o restricted to the wires, t] · (old network)[o with the wires overwritten by t, i]` – the row `o` of the embedded
+gate times the old value (`embed_mul_bits` turns the sum over `t` into the sum over the flat register index) -/
+theorem C05_circuitNet_step (fields : List FieldSpec) (n : Nat) (tn tn' : TN α) (p : PGate α)
+    (hst : StateOK n tn) (h : gateStep fields n tn p = .ok tn') (hp : GateHyp p)
+    (hwires : ∀ x ∈ p.particles.map (mapParticleToWire fields), x.toNat < n) (o i : List Nat)
+    (ho : o.length = n) (hi : i.length = n) (bo : Bits o) (bi : Bits i) :
+    StateOK n tn' ∧ full tn'.net tn'.D (o ++ i) = ((allIdx (rep2 p.particles.length)).map (fun t =>
+      p.g.mat (bitsVal (pickD o 0 ((p.particles.map (mapParticleToWire fields)).map Int.toNat))) (bitsVal t) *
+      full tn.net tn.D (setW o ((p.particles.map (mapParticleToWire fields)).map Int.toNat) t ++ i))).sum := by
+  obtain ⟨hst', hwl, gtn, hg, hval⟩ := gateStep_value hst h hp.two hp.fresh hwires
+  refine ⟨hst', ?_⟩
+  rw [hval o i ho hi bo bi]
+  apply congrArg
+  apply List.map_congr_left
+  intro t ht
+  obtain ⟨htl, htb⟩ := mem_allIdx_rep2.mp ht
+  rw [hp.den gtn hg _ t (by simp [pickD, hwl]) (by rw [htl, hwl]) (bits_pickD bo _) htb, mul_comm]
 
 /-- the same in terms of the product of the embedded gate matrices, first gate applied first (`C05_circuitMatrix_eq_prod`
 of the matrix part): the network contracts to `Mₖ * … * M₁` -/
@@ -351,6 +370,20 @@ theorem C05_tnRun_eq_col0 (fields : List FieldSpec) (instrs : List (CInstr α)) 
     hob (bits_replicate_zero (numWires fields))
   rw [this, bitsVal_replicate_zero]
 
+/-- **both simulators return the same state**: whenever `StatevectorSimulator.run` and `TensorNetworkSimulator.run` both
+return on a (non-empty) circuit, amplitude by amplitude `psi_tn[o] = psi_sv[bitsVal o]` – both are column `|0…0⟩` of the
+circuit matrix (`C05_svRun_eq_col0`, `C05_tnRun_eq_col0`) -/
+theorem C05_simulators_agree {α : Type} [CommRing α] [DecidableEq α] (fields : List FieldSpec) (instrs : List (CInstr α)) (hne : instrs ≠ []) (tor bor : List Int)
+    (psi : DT α) (phi : Vector α (2 ^ numWires fields)) (hrun : tnRun fields instrs tor bor = .ok psi)
+    (hsv : svRun fields (instrs.map CInstr.toInstr) = .ok phi) (hg : ∀ p, CInstr.gate p ∈ instrs → GateHyp p)
+    (o : List Nat) (ho : o.length = numWires fields) (bo : Bits o) :
+    psi.get o = phi[bitsVal o]'(by rw [← ho]; exact bitsVal_lt o bo) := by
+  obtain ⟨_, P, hP, hcol⟩ := C05_svRun_eq_col0 fields (instrs.map CInstr.toInstr) (by simpa using hne) phi hsv
+  have h1 : bitsVal o < 2 ^ numWires fields := by rw [← ho]; exact bitsVal_lt o bo
+  rw [(C05_tnRun_eq_col0 fields instrs tor bor psi P hrun hP hg).2 o ho bo, hcol ⟨bitsVal o, h1⟩]
+  have h0 : 0 < 2 ^ numWires fields := Nat.pos_of_ne_zero (by positivity)
+  simp [entry, h1, h0]
+
 /-! ### the known finding: two-qubit wraps are refused
 
 FULL STATEMENT (violated by the code, `known_findings.json`, keys `C05:tensornet-view:two-qubit-wrap:*`): "for every
@@ -376,6 +409,16 @@ theorem C05_known_twoQubitWrap_refused (fields : List FieldSpec) (n : Nat) (tn :
     rfl
   unfold gateStep
   simp only [bind, Except.bind, hcore]
+
+/-- the theorems are about what the driver executes: over the driver's Gaussian rationals (`QibModel/GQ.lean`, a commutative
+semiring with the driver's own `0`, `1`, `+`, `*`: `Lemmas/GateNetGQ.lean`) the functions in the statements are the ones
+`drv_circuitnet` runs -/
+theorem C05_driver_scalars (fields : List FieldSpec) (instrs : List (CInstr Qib.GQ)) (tor bor : List Int) :
+    @circuitNet Qib.GQ Qib.GQ.instZero Qib.GQ.instOne inferInstance fields instrs =
+      circuitNet fields instrs ∧
+    @tnRun Qib.GQ Qib.GQ.instZero Qib.GQ.instOne Qib.GQ.instAdd Qib.GQ.instMul inferInstance fields instrs tor bor =
+      tnRun fields instrs tor bor :=
+  ⟨rfl, rfl⟩
 
 /-! ### non-vacuity (tests, not proofs) -/
 
@@ -405,8 +448,8 @@ example : ∀ p, CInstr.gate p ∈ exCircuit → GateHyp p := by
   simp only [exCircuit, List.mem_cons, List.not_mem_nil, or_false, reduceCtorEq, false_or, CInstr.gate.injEq] at hp
   rcases hp with rfl | rfl
   · exact C05_gateHyp_of_class _ (by intro w m h; simp only [exH, G.leaf.injEq] at h; exact h.1.symm)
-      (by intro n x m tr h; cases h) (by intro n u un h; cases h) (by decide)
+      (by intro n x m tr h; cases h) (by intro n u un h; cases h) (by intro cs t h; cases h)
   · exact C05_gateHyp_of_class _ (by intro w m h; cases h) (by intro n x m tr h; cases h) (by intro n u un h; cases h)
-      (by decide)
+      (by intro cs t _; decide)
 
 end Qib.C05Net
